@@ -37,17 +37,32 @@ def main():
     demo = os.path.join(src, "demo%s.c" % suffix)
     bld = os.path.join(src, "build-demo%s.sh" % suffix)
     meta = os.path.join(src, "meta%s.json" % suffix)
+    letter = "abcdefgh"[int(suffix) - 1] if suffix else "a"
+    sid = "%s%s" % (pid, letter)
+    dest = os.path.join(VERIF, "seeded", sid)
+    if not os.path.exists(patch) and os.path.exists(os.path.join(dest, "patch.diff")):
+        # the sub-agent's worktree is gone: re-verify from the filed copy
+        import tempfile as _t
+        stage = _t.mkdtemp(prefix="ufw-seedsrc-")
+        shutil.copy(os.path.join(dest, "patch.diff"), os.path.join(stage, "patch%s.diff" % suffix))
+        shutil.copy(os.path.join(dest, "demo.c"), os.path.join(stage, "demo%s.c" % suffix))
+        shutil.copy(os.path.join(dest, "build-demo.sh"), os.path.join(stage, "build-demo%s.sh" % suffix))
+        old = json.load(open(os.path.join(dest, "meta.json"))).get("agent_meta")
+        if old:
+            json.dump(old, open(os.path.join(stage, "meta%s.json" % suffix), "w"))
+        src = stage
+        patch = os.path.join(src, "patch%s.diff" % suffix)
+        demo = os.path.join(src, "demo%s.c" % suffix)
+        bld = os.path.join(src, "build-demo%s.sh" % suffix)
+        meta = os.path.join(src, "meta%s.json" % suffix)
     for f in (patch, demo, bld):
         if not os.path.exists(f):
             print("missing", f)
             sys.exit(2)
-    letter = "abcdefgh"[int(suffix) - 1] if suffix else "a"
-    sid = "%s%s" % (pid, letter)
-    dest = os.path.join(VERIF, "seeded", sid)
     os.makedirs(dest, exist_ok=True)
-    shutil.copy(patch, os.path.join(dest, "patch.diff"))
-    shutil.copy(demo, os.path.join(dest, "demo.c"))
-    shutil.copy(bld, os.path.join(dest, "build-demo.sh"))
+    for a, b in ((patch, "patch.diff"), (demo, "demo.c"), (bld, "build-demo.sh")):
+        if os.path.realpath(a) != os.path.realpath(os.path.join(dest, b)):
+            shutil.copy(a, os.path.join(dest, b))
     agent_meta = {}
     if os.path.exists(meta):
         try:
